@@ -36,12 +36,16 @@ def gen_slice(rng):
         if r > 0.75:
             for i in range(len(units)):
                 u = units[i]
-                if u in G.TIME_UNITS + G.VOLT_UNITS and i < len(starts) and i < len(ends):
+                if u in G.TIME_UNITS + G.VOLT_UNITS and (i < len(starts) or i < len(ends)):
+                    # another unit of the same quantity, also when only the start or only the end is given
                     fam = G.TIME_UNITS if u in G.TIME_UNITS else G.VOLT_UNITS
                     v = rng.choice(fam)
-                    a, b = G.rescale(starts[i], u, v), G.rescale(ends[i], u, v)
+                    a = G.rescale(starts[i], u, v) if i < len(starts) else 0.0
+                    b = G.rescale(ends[i], u, v) if i < len(ends) else 0.0
                     if a is not None and b is not None:
-                        starts[i], ends[i], units[i] = a, b, v
+                        if i < len(starts): starts[i] = a
+                        if i < len(ends): ends[i] = b
+                        units[i] = v
         if rng.random() < 0.15 and units: units = units[:-1]
     return shape, dims, starts, ends, units
 
